@@ -1,4 +1,5 @@
 import HcipyVerif.Lemmas.FraunhoferBridge
+import HcipyVerif.Lemmas.FraunhoferAbstract
 import HcipyVerif.Lemmas.Nft
 import HcipyVerif.Model.FraunhoferObj
 
@@ -227,3 +228,20 @@ theorem heapOk_runCalls (cs : List Call) : ∀ (h : Heap) (log : List WfRef), He
         simpa [hi] using ih _ _ h2
 
 end HcipyVerif.FourierLink
+
+namespace HcipyVerif.Fraunhofer
+
+/-- **`Bad` variant** (not the code's behaviour): a `forward` of the object that builds `Wavefront(field, wavelength)` and
+forgets `input_stokes_vector`. -/
+def Bad.objForwardDropStokes {σ K C : Type} [Zero K] [Add K] [Sub K] [Mul K] [Neg K] [Div K] [One K] [NatCast K]
+    [IntCast K] [Zero C] [One C] [Add C] [Mul C] [Inv C] [NatCast C] (S : Scalars K C) (P : LensProp K) (wf : Wf σ K C) :
+    Wf σ K C :=
+  { P.forward S wf with stokes := none }
+
+/-- `Wavefront.I` of a Jones-matrix record: `stokesI` of its Stokes vector, without one the unpolarised `(1,0,0,0)` -/
+noncomputable def recordI (S : Option (ℝ × ℝ × ℝ × ℝ)) (x y z w : ℂ) : ℝ :=
+  stokesI (match S with
+    | some (a, b, c, d) => ![a, b, c, d]
+    | none => ![1, 0, 0, 0]) x y z w
+
+end HcipyVerif.Fraunhofer
